@@ -118,8 +118,15 @@ def model_schedules(ctx, thorough):
                  count=False, workers=2)
     if r2.invariant != 'CompletionInOrder':
         raise MachineryError('negative control failed: the schedule model has no out-of-order completion')
+    r3 = ctx.tlc('MC_Searchlight', S.cfg('sch', workers=w, tasks=t, collect='origindex'), name='sch_neg3',
+                 must_pass=False, count=False, workers=2)
+    if r3.invariant != 'ResultOrder':
+        raise MachineryError("negative control failed: looking elements up by their original 'index' does not violate "
+                             'ResultOrder for a re-ordered / selected object in the model')
     ctx.extra['schedule_negative_controls'] = ['CollectBy=completion violates ResultOrder',
-                                               'CompletionInOrder is violated (out-of-order completion reachable)']
+                                               'CompletionInOrder is violated (out-of-order completion reachable)',
+                                               "CollectBy=origindex (look-up by the original 'index' descriptor) violates "
+                                               'ResultOrder for a re-ordered or selected object']
 
 
 def model_chunks(ctx, thorough):
